@@ -316,11 +316,18 @@ class SchemaValidator:
             p for p in params if p.kind is Parameter.VAR_KEYWORD
         )
 
-        known_param_names = [arg.python_name for arg in args]
+        # The variable parameters themselves can never be bound by keyword.
+        named_params = {
+            p.name: p for p in params if p.kind not in VAR_PARAM_KINDS
+        }
+
+        known_param_names = [
+            arg.python_name for arg in args if arg.python_name in named_params
+        ]
 
         for arg in args:
             try:
-                param = sig.parameters[arg.python_name]
+                param = named_params[arg.python_name]
             except KeyError:
                 if not accepts_arbitrary_kw_params:
                     self.add_error(
@@ -329,10 +336,21 @@ class SchemaValidator:
                     )
             else:
                 if param.kind is Parameter.POSITIONAL_ONLY:
-                    # In practice this is a 3.8+ only concern.
+                    # In practice this is a 3.8+ only concern. With variable
+                    # keyword parameters the value ends up there.
+                    if not accepts_arbitrary_kw_params:
+                        self.add_error(
+                            'Resolver parameter for argument "%s" on "%s" '
+                            "must not be positional only" % (arg.name, path,)
+                        )
+                elif param in [
+                    p for p in params if p.kind in POSITIONAL_PARAM_KINDS
+                ][:3]:
+                    # Already bound to the parent value, context or info.
                     self.add_error(
-                        'Resolver parameter for argument "%s" on "%s" '
-                        "must not be positional only" % (arg.name, path,)
+                        'Resolver parameter for argument "%s" on "%s" is one '
+                        "of the 3 expected positional parameters"
+                        % (arg.name, path,)
                     )
                 elif (
                     param.default is Parameter.empty
